@@ -152,8 +152,14 @@ Direct(e) == << <<"P03.terminates", ~e.timeout>>, <<"P03.succeeds", e.timeout \/
                 <<"P03.direct_jumps", e.count => e.jumps>>,
                 <<"P03.direct_lines", e.count => e.lines>> >>
 
+\* the encoder emitted an operand of 2^31 or more (beyond TLC's integers) although no operand of the input is that
+\* large (inputs with such operands, bpo-46724, never become events): whatever the data said, this is not it
+WideOutput(e) ==
+    << <<"P03.readable", FALSE>>, <<"P01.identical", e.src # "decoded">>, <<"P05.sem", ~e.has_c0>> >>
+
 Failing(e) ==
-    LET cs == IF e.kind = "fromcode_fail" THEN FromCodeFailed(e) ELSE IF e.kind = "direct" THEN Direct(e) ELSE Clauses(e)
+    LET cs == IF e.kind = "fromcode_fail" THEN FromCodeFailed(e) ELSE IF e.kind = "direct" THEN Direct(e)
+              ELSE IF e.wide THEN WideOutput(e) ELSE Clauses(e)
     IN SelectSeq([i \in DOMAIN cs |-> IF cs[i][2] THEN "" ELSE cs[i][1]], LAMBDA x: x # "")
 
 Init == l = 1
